@@ -4,7 +4,7 @@ B := build
 CXX := g++
 SAN := -fsanitize=address,undefined -fno-sanitize=pointer-overflow,nonnull-attribute,null -fno-sanitize-recover=undefined -fno-omit-frame-pointer
 COMMON := -O1 -g1 -DNDEBUG -I$(REPO)/include -Wno-deprecated-declarations -MMD -MP $(SAN)
-MEM_GROUPS := a b c d e f g
+MEM_GROUPS := a b c d e f g h
 # C01/C10 quantify over all row alignments, including ones that misalign 16/32-bit channels (gil then makes misaligned
 # accesses, which x86 tolerates and which no property forbids): the alignment check would drown the bounds oracle
 MEM_SAN := -fno-sanitize=alignment
